@@ -31,6 +31,9 @@ from translate import gen_rules
 
 PROP = 'C12'
 
+# output file stems for gram_check -o <stem>.py (the factory function must carry the file's stem): endings in p / y / py, upper case, digits, one letter
+STEMS = ['g_rules', 'x_rules', 'py_rules', 'gram_rules', 'py_rules_copy', 'rules_py', 'gram_p', 'tokens_y', 'snappy', 'Rules2', 'R9', 'p', 'y_', 'x']
+
 
 def translate(ctx: Ctx) -> tuple[bool, str]:
 	try:
@@ -161,7 +164,7 @@ def stream_rules_ast(ctx: Ctx) -> Stream:
 		else:
 			real.append(k)
 		if kind != 'off-shape' or rng.random() < 0.3:
-			stem = rng.choice(['py_rules', 'gram_rules', 'x'])
+			stem = rng.choice(STEMS)
 			try:
 				ops.append(f'render\t{hx(stem)}\t{sx}')
 				real.append('ok ' + hx(real_render(ast_tree_of(t), stem)))
@@ -291,6 +294,8 @@ def rt_key(rules: Any) -> str:
 		return 'text-rt:terminal-with-raw-control-character'
 	if any('\\\\' in s for s in terms):
 		return 'text-rt:terminal-with-backslash-run'
+	if any(s.startswith(t) for s in terms for t in gramlib.OPERATOR_TAILS):
+		return 'text-rt:terminal-begins-with-the-tail-of-a-combined-symbol'
 	if any(s.endswith('/') or s.startswith('/') for s in terms if s not in ('/', '//')):
 		return 'text-rt:terminal-with-slash-at-its-edge'
 	if any(s.endswith('\\') for s in terms):
@@ -404,7 +409,7 @@ def search_render_import(ctx: Ctx) -> SearchResult:
 			t = ('entry', [('rule', [('symbol', 'x'), ('__empty__', ''), ('terms', [('string', '"\\n"'), ('symbol', 'y')])]), ('rule', [('symbol', 'y'), ('__empty__', ''), ('string', '"\'"')])])
 		else:
 			t = (gen_all if unrestricted else gen).grammar(rng.randint(1, 4), rng.randint(0, 2), bare_groups=rng.random() < 0.2)
-		stem = rng.choice(['gen_rules', 'x_rules', 'py_rules'])
+		stem = rng.choice(STEMS)
 		variants: list[tuple[str, Any]] = [('tree', None)]
 		if i % 3 == 0 or unrestricted:
 			variants.append(('printout', None))
@@ -428,6 +433,10 @@ def search_render_import(ctx: Ctx) -> SearchResult:
 				text = real_render(ast_tree, stem)
 				ns: dict[str, Any] = {}
 				exec(compile(text, f'<generated {stem}.py>', 'exec'), ns)  # noqa: S102 - the module gram_check would write
+				if stem not in ns:
+					hist[f'{variant}:FACTORY-NAME'] += 1
+					res.findings.append(Finding(key='gram-check-file:factory-name-differs-from-file-stem', what=f'the module rendered for the output file {stem}.py does not define {stem}(); it defines {[k for k in ns if not k.startswith("__") and k != "Rules"]}', replay={'tree': t, 'variant': variant, 'stem': stem, 'rendered': text[:600]}))
+					continue
 				got = gramlib.rules_show(ns[stem]())
 			except Exception as e:  # noqa: BLE001
 				got = f'raised {type(e).__name__}: {e}'
@@ -768,7 +777,7 @@ def search_gram_check_file(ctx: Ctx) -> SearchResult:
 			res.cases += 1
 			seen.add(variant + want)
 			n += 1
-			stem = rng.choice(['g_rules', 'x_rules', 'py_rules'])
+			stem = rng.choice(STEMS)
 			gp, op = os.path.join(base, f'g{n}.lark'), os.path.join(base, f'o{n}', f'{stem}.py')
 			os.makedirs(os.path.dirname(op), exist_ok=True)
 			with open(gp, 'wb') as f:
@@ -829,6 +838,10 @@ def search_gram_check_file(ctx: Ctx) -> SearchResult:
 				try:
 					ns: dict[str, Any] = {}
 					exec(compile(generated, f'<generated {stem}.py>', 'exec'), ns)  # noqa: S102 - the module gram_check wrote
+					if stem not in ns:
+						hist['lf:FACTORY-NAME'] += 1
+						res.findings.append(Finding(key='gram-check-file:factory-name-differs-from-file-stem', what=f'the module written to {stem}.py does not define {stem}(); it defines {[k for k in ns if not k.startswith("__") and k != "Rules"]}', replay={**rec, 'stem': stem, 'generated': generated[:600]}))
+						continue
 					got = gramlib.rules_show(ns[stem]())
 				except Exception as e:  # noqa: BLE001
 					got = f'raised {type(e).__name__}: {e}'
